@@ -8,6 +8,7 @@ crash point; `Crash` is raised *before* operation `crash_at`, after which nothin
 from __future__ import annotations
 
 import posixpath
+from collections.abc import MutableMapping
 
 
 class Crash(BaseException):
@@ -20,10 +21,63 @@ class Interrupt(KeyboardInterrupt):
     clauses run - and what they do does reach the disk."""
 
 
+class _Files(MutableMapping):
+    """path -> bytes, with hard links: several paths may name one inode, and writing or truncating through one of them
+    is seen through all of them (os.link); rename and remove only touch the directory entry."""
+
+    def __init__(self, files=None):
+        self._ino, self._data, self._next = {}, {}, 0
+        if isinstance(files, _Files):  # a copy keeps the hard links (a directory handed from one killed write to the next)
+            self._ino, self._data, self._next = dict(files._ino), dict(files._data), files._next
+            return
+        for k, v in dict(files or {}).items():
+            self[k] = v
+
+    def __getitem__(self, path):
+        return self._data[self._ino[path]]
+
+    def __setitem__(self, path, data):
+        if path not in self._ino:
+            self._ino[path] = self._next
+            self._next += 1
+        self._data[self._ino[path]] = data
+
+    def __delitem__(self, path):
+        ino = self._ino.pop(path)
+        if ino not in self._ino.values():
+            del self._data[ino]
+
+    def __iter__(self):
+        return iter(list(self._ino))
+
+    def __len__(self):
+        return len(self._ino)
+
+    def link(self, src, dst):
+        self._ino[dst] = self._ino[src]
+
+    def rename(self, src, dst):
+        if src == dst or self._ino.get(dst) == self._ino[src]:
+            return  # POSIX: renaming onto another name of the same inode does nothing (both names stay)
+        if dst in self._ino:
+            del self[dst]
+        self._ino[dst] = self._ino.pop(src)
+
+    def nlinks(self, path):
+        return sum(1 for i in self._ino.values() if i == self._ino[path])
+
+
+def _device(path):
+    """the virtual disk has one file system per top-level directory (/tmp and /ckpt are different devices)"""
+    parts = [x for x in str(path).split("/") if x]
+    return parts[0] if str(path).startswith("/") and len(parts) > 1 else "."
+
+
 class VFS:
     def __init__(self, files=None, bufsize=1, crash_at=None, interrupt_at=None, deny=()):
         self.deny = set(deny)  # paths that cannot be created (a directory sits there, name too long, no permission, disk full): OSError
-        self.files = dict(files or {})  # path -> bytes
+        self.files = _Files(files)  # path -> bytes (hard links share their bytes)
+        self._ntmp = 0
         self.bufsize = bufsize
         self.crash_at = crash_at
         self.interrupt_at = interrupt_at  # operation at which an ordinary exception is raised once (see Interrupt)
@@ -92,7 +146,47 @@ class VFS:
         if src not in self.files:
             raise FileNotFoundError(src)
         self._op("rename", src, dst)
-        self.files[dst] = self.files.pop(src)
+        self.files.rename(src, dst)
+
+    def link(self, src, dst):
+        if src not in self.files:
+            raise FileNotFoundError(2, "No such file or directory", src)
+        if dst in self.files:
+            raise FileExistsError(17, "File exists", dst)
+        if _device(src) != _device(dst):
+            raise OSError(18, "Invalid cross-device link", dst)
+        self._op("link", src, dst)
+        self.files.link(src, dst)
+
+    # ---- shutil.move: a rename on one file system, copy then unlink across two
+    def move(self, src, dst, *a, **k):
+        if src not in self.files:
+            raise FileNotFoundError(2, "No such file or directory", src)
+        if _device(src) == _device(dst):
+            self.rename(src, dst)
+        else:
+            self.copyfile(src, dst)
+            self.remove(src)
+        return dst
+
+    # ---- tempfile.NamedTemporaryFile / mkstemp: the default directory is the system one (/tmp), another device
+    def _tmpname(self, suffix=None, prefix=None, dir=None):
+        self._ntmp += 1
+        return "%s/%svt%06d%s" % (str(dir) if dir is not None else "/tmp", prefix or "tmp", self._ntmp, suffix or "")
+
+    def named_temporary_file(self, mode="w+b", buffering=-1, encoding=None, newline=None, suffix=None, prefix=None, dir=None,
+                             delete=True, **k):
+        path = self._tmpname(suffix, prefix, dir)
+        f = self.open(path, "w")
+        f.name = path
+        f.delete = delete
+        return f
+
+    def mkstemp(self, suffix=None, prefix=None, dir=None, text=False):
+        import os as _os
+
+        path = self._tmpname(suffix, prefix, dir)
+        return self.os_open(path, _os.O_CREAT | _os.O_WRONLY | _os.O_EXCL), path
 
     def remove(self, path):
         if path not in self.files:
@@ -139,6 +233,11 @@ class _File:
             self.closed = True
             if not self.vfs.dead:
                 self.flush()
+                if getattr(self, "delete", False) and self.path in self.vfs.files:
+                    self.vfs.remove(self.path)
+
+    def fileno(self):
+        return -1
 
     def __enter__(self):
         return self
@@ -184,6 +283,9 @@ class _OS:
     def unlink(self, a):
         return self._vfs.remove(a)
 
+    def link(self, a, b, **k):
+        return self._vfs.link(a, b)
+
     def open(self, path, flags, mode=0o777, *a, **k):
         return self._vfs.os_open(path, flags, mode)
 
@@ -221,9 +323,14 @@ class installed:
         pu.open = self.vfs.open
         pu.os = _OS(self.vfs, os)
         # whoever copies checkpoint files (any module) does so on the virtual disk
-        self.saved_shutil = {n: getattr(shutil, n) for n in ("copyfile", "copy", "copy2")}
+        self.saved_shutil = {n: getattr(shutil, n) for n in ("copyfile", "copy", "copy2", "move")}
         for n in self.saved_shutil:
-            setattr(shutil, n, self.vfs.copyfile)
+            setattr(shutil, n, self.vfs.move if n == "move" else self.vfs.copyfile)
+        import tempfile
+
+        self.saved_tmp = {n: getattr(tempfile, n) for n in ("NamedTemporaryFile", "mkstemp")}
+        tempfile.NamedTemporaryFile = self.vfs.named_temporary_file
+        tempfile.mkstemp = self.vfs.mkstemp
         return self.vfs
 
     def __exit__(self, *a):
@@ -236,4 +343,8 @@ class installed:
 
         for n, f in self.saved_shutil.items():
             setattr(shutil, n, f)
+        import tempfile
+
+        for n, f in self.saved_tmp.items():
+            setattr(tempfile, n, f)
         return False
